@@ -14,11 +14,16 @@ RULE = ("every table with <=N rows (position + payload columns), 1..3 sort keys 
         "non-trivial = at least one tie on all keys or at least one None key")
 ASSUMPTIONS = ["specification sort written as a comparison function (cmp_to_key), independent of serif's key-tuple trick"]
 
+INF = float("inf")
 ALPHA = {
     "int": [1, 2, None],
     "str": ["a", "b", None],
     "eqnum": [1, True, None],      # 1 == True: ties between distinguishable values (stability is observable)
+    "intc": [-1, -2, None],        # equal hash, different value
+    "finf": [INF, 1.5, None],      # a real +inf next to None (None must still be placed by the None rule, not as a sentinel)
+    "fninf": [-INF, 1.5, None],
 }
+TABLE_KINDS = ("int", "str", "eqnum")
 FORMS = ("name", "column", "external")
 
 
@@ -249,6 +254,42 @@ def run_unit(unit):
                         else:
                             agg.outcomes["rename-sort-agree"] += 1
         agg.sample({"history": ["swap names through live views", "sort_by(name)"], "kind": kind})
+    elif what == "swap":
+        # sort, exchange two key cells with two in-place writes (for hash-equal values the column's fingerprint does not
+        # move), sort again
+        from serif import Vector
+        _, kind, policy = unit
+        if policy != "fresh":
+            core.reset_globals(policy)
+        for n in (2, 3):
+            for keys in itertools.product([x for x in ALPHA[kind] if x is not None], repeat=n):
+                for i, j in itertools.combinations(range(n), 2):
+                    if keys[i] == keys[j]:
+                        continue
+                    for path in ("cell", "view"):
+                        for rev in (False, True):
+                            agg.evals += 1; agg.transitions += 4; agg.states += 1; agg.nontrivial += 1; agg.compared += 1
+                            case = {"kind": kind, "keys": list(keys), "swap": [i, j], "path": path, "reverse": rev, "allocator": policy,
+                                    "history": ["sort_by", "two writes exchanging two key cells", "sort_by again"]}
+                            try:
+                                t, by, cols = build([(k,) for k in keys], 1, "name")
+                                t.sort_by("k0", reverse=rev)
+                                k2 = list(keys); k2[i], k2[j] = k2[j], k2[i]
+                                if path == "cell":
+                                    t[i, "k0"] = k2[i]; t[j, "k0"] = k2[j]
+                                else:
+                                    t["k0"][i] = k2[i]; t["k0"][j] = k2[j]
+                                r2 = t.sort_by("k0", reverse=rev)
+                            except Exception as e:
+                                agg.violation(V("table.sort_by.after-swap", "raises-" + type(e).__name__, case, None, repr(e)[:80]))
+                                continue
+                            want = spec_sort(list(range(n)), [k2], [rev], True)
+                            got = list(r2["pos"]._underlying)
+                            if got != want or not same_list(list(r2["k0"]._underlying), [k2[x] for x in want]):
+                                agg.violation(V("table.sort_by.after-swap", "stale-order-after-exchanging-two-cells", case, want, got))
+                            else:
+                                agg.outcomes["swap-sort-agree"] += 1
+        agg.sample({"history": ["sort", "exchange two key cells", "sort"], "kind": kind, "allocator": policy})
     elif what == "hist":
         from serif import Vector
         _, kind, maxn = unit
@@ -303,11 +344,12 @@ def check(ctx):
     units = []
     for kind in ALPHA:
         for n in range(0, N + 1):
-            if n >= 4:
-                for f in ALPHA[kind]:
-                    units.append(("table", kind, 1, n, (f,)))
-            else:
-                units.append(("table", kind, 1, n, None))
+            if kind in TABLE_KINDS or n <= 3:
+                if n >= 4:
+                    for f in ALPHA[kind]:
+                        units.append(("table", kind, 1, n, (f,)))
+                else:
+                    units.append(("table", kind, 1, n, None))
             units.append(("vector", kind, n))
     N2 = ctx.pick(3, 4)
     for kind in (("int", "str") if ctx.thorough else ("int",)):
@@ -325,6 +367,8 @@ def check(ctx):
             units.append(("table", "int", 3, n, None))
     units += [("hist", k, 3) for k in ("int", "str")]
     units += [("rename", k) for k in ("int", "str")]
+    units += [("swap", k, pol) for k in ("intc", "int", "str") for pol in ("fresh", "recycle")]
+    units += [("hist", "intc", 3)]
     agg = core.merge_all(core.pmap(run_unit, units))
     agg.notes["bound"] = f"tables rows<={N} (1 key) / <={N2} (2 keys) / <={ctx.pick(2,3)} (3 keys); vectors len<={N}"
     agg.notes["exhaustive"] = True
